@@ -266,20 +266,23 @@ theorem smallInt_entry {i : Nat} (hi : i < 10) : genBel.smallInt[i]? = some (10 
 
 /-! ## The model's control flow, restated with named stages -/
 
+/-- the small-power step: `(fp1, errors1)` -/
+def stage1 (num : Number) (sInt : Nat) (sFp : ExtFloat) : ExtFloat × Nat :=
+  if num.mantissa * sInt ≥ u64Mod then
+    (belMul (belNormalize ⟨num.mantissa, 0⟩).1 sFp,
+      truncatedErrors num (belNormalize ⟨num.mantissa, 0⟩).1 + errorHalfscale)
+  else
+    ((belNormalize ⟨num.mantissa * sInt, 0⟩).1,
+      truncatedErrors num (belNormalize ⟨num.mantissa * sInt, 0⟩).1)
+
+/-- `errors2` from `errors1` -/
+def bump (errors1 : Nat) : Nat := (if errors1 > 0 then errors1 + 1 else errors1) + errorHalfscale
+
 /-- the computation between the index guards and `error_is_accurate`: `(fp4, errors3)` -/
 def stage (F : FloatC) (num : Number) (sInt : Nat) (sFp lFp : ExtFloat) : ExtFloat × Nat :=
-  let prod := num.mantissa * sInt
-  let p1 : ExtFloat × Nat :=
-    if prod ≥ u64Mod then
-      let fpn := (belNormalize ⟨num.mantissa, 0⟩).1
-      (belMul fpn sFp, truncatedErrors num fpn + errorHalfscale)
-    else
-      let fpn := (belNormalize ⟨prod, 0⟩).1
-      (fpn, truncatedErrors num fpn)
-  let fp2 := belMul p1.1 lFp
-  let errors2 := (if p1.2 > 0 then p1.2 + 1 else p1.2) + errorHalfscale
-  let n := belNormalize fp2
-  (⟨n.1.mant, n.1.exp + F.exponentBias⟩, (errors2 * 2 ^ n.2) % u64Mod)
+  (⟨(belNormalize (belMul (stage1 num sInt sFp).1 lFp)).1.mant,
+    (belNormalize (belMul (stage1 num sInt sFp).1 lFp)).1.exp + F.exponentBias⟩,
+   (bump (stage1 num sInt sFp).2 * 2 ^ (belNormalize (belMul (stage1 num sInt sFp).1 lFp)).2) % u64Mod)
 
 /-- the tail of `bellerophon` after `fp.exp += F::EXPONENT_BIAS` -/
 def finish (F : FloatC) (fp4 : ExtFloat) (errors3 : Nat) : ExtFloat :=
@@ -288,38 +291,236 @@ def finish (F : FloatC) (fp4 : ExtFloat) (errors3 : Nat) : ExtFloat :=
   else if -fp4.exp + 1 = 65 then ⟨0, 0⟩
   else round F (roundNearestTieEven cbNearestEven) fp4
 
-/-- `finish` with the `some` on every branch, as the model has it -/
-def finishO (F : FloatC) (fp4 : ExtFloat) (errors3 : Nat) : Option ExtFloat :=
-  if -fp4.exp + 1 > 65 then some ⟨0, 0⟩
-  else if !errorIsAccurate F errors3 fp4 then some ⟨fp4.mant, fp4.exp + F.invalidFp⟩
-  else if -fp4.exp + 1 = 65 then some ⟨0, 0⟩
-  else some (round F (roundNearestTieEven cbNearestEven) fp4)
+/-! ## B3 — error tracking in ℚ -/
 
-theorem finishO_eq (F : FloatC) (fp4 : ExtFloat) (errors3 : Nat) :
-    finishO F fp4 errors3 = some (finish F fp4 errors3) := by
-  unfold finish finishO
-  split
-  · rfl
-  split
-  · rfl
-  split
-  · rfl
-  rfl
+/-- signed error of `fp` against the real value `V`, in units of the last place of `fp`:
+    `V / 2^exp − mant` -/
+def off (fp : ExtFloat) (V : ℚ) : ℚ := V / (2:ℚ) ^ fp.exp - fp.mant
 
-theorem bellerophon_eq (T : BelTables) (F : FloatC) (num : Number) :
-    bellerophon T F num =
-      if num.mantissa = 0 ∨ num.exponent ≤ -4096 then some ⟨0, 0⟩
-      else if num.exponent ≥ 4096 then some ⟨0, F.infinitePower⟩
-      else if num.exponent + T.bias < 0 then some ⟨0, 0⟩
-      else if (Int.tdiv (num.exponent + T.bias) T.step).toNat ≥ T.large.length then
-        some ⟨0, F.infinitePower⟩
-      else
-        match T.smallInt[(Int.tmod (num.exponent + T.bias) T.step).toNat]?,
-              T.getSmall (Int.tmod (num.exponent + T.bias) T.step).toNat,
-              T.getLarge (Int.tdiv (num.exponent + T.bias) T.step).toNat with
-        | some sInt, some sFp, some lFp =>
-          finishO F (stage F num sInt sFp lFp).1 (stage F num sInt sFp lFp).2
-        | _, _, _ => none := by
-  rfl
+theorem two_zpow_ne (e : Int) : (2:ℚ) ^ e ≠ 0 := (two_zpow_pos e).ne'
+
+/-- normalising scales the error with the significand -/
+theorem off_normalize {fp : ExtFloat} (h0 : fp.mant ≠ 0) (h64 : fp.mant < 2 ^ 64) (V : ℚ) :
+    off (belNormalize fp).1 V = off fp V * (2:ℚ) ^ (clz64 fp.mant) := by
+  obtain ⟨_, hm, he, _, _⟩ := belNormalize_spec h0 h64
+  unfold off
+  rw [hm, he, zpow_sub₀ (by norm_num), zpow_natCast]
+  have h1 := two_zpow_ne fp.exp
+  have h2 : (2:ℚ) ^ (clz64 fp.mant) ≠ 0 := by positivity
+  push_cast
+  field_simp
+
+/-- one extended multiplication by a truncated table entry: the lower slack grows by ½ (product
+    rounding), the upper slack by 3/2 (product rounding + the entry's truncation). -/
+theorem off_mul {x y : ExtFloat} (hx : x.mant < 2 ^ 64) (hy : y.mant < 2 ^ 64)
+    {X Y a b : ℚ} (ha : 0 ≤ a) (hb : 0 ≤ b) (h1 : -a ≤ off x X) (h2 : off x X ≤ b)
+    (h3 : val y ≤ Y) (h4 : Y < val y + (2:ℚ) ^ y.exp) :
+    -(a + 1/2) ≤ off (belMul x y) (X * Y) ∧ off (belMul x y) (X * Y) ≤ b + 3/2 := by
+  obtain ⟨e1, e2⟩ := belMul_err hx hy
+  have hpx := two_zpow_pos x.exp
+  have hpy := two_zpow_pos y.exp
+  -- scaled quantities
+  set o := off x X with ho
+  set Y1 := Y / (2:ℚ) ^ y.exp with hY1
+  have hXe : X / (2:ℚ) ^ x.exp = x.mant + o := by rw [ho]; unfold off; ring
+  have hY1a : (y.mant : ℚ) ≤ Y1 := by
+    rw [hY1, le_div_iff₀ hpy]; unfold val at h3; exact h3
+  have hY1b : Y1 < (y.mant : ℚ) + 1 := by
+    rw [hY1, div_lt_iff₀ hpy]; unfold val at h4; linarith
+  have hyq : (y.mant : ℚ) + 1 ≤ 2 ^ 64 := by
+    have : y.mant + 1 ≤ 2 ^ 64 := hy
+    exact_mod_cast this
+  have hxq : (x.mant : ℚ) < 2 ^ 64 := by exact_mod_cast hx
+  have hx0 : (0:ℚ) ≤ x.mant := Nat.cast_nonneg _
+  have hy0 : (0:ℚ) ≤ y.mant := Nat.cast_nonneg _
+  have q1 : ((x.mant * y.mant : Nat) : ℚ) < (((belMul x y).mant * 2 ^ 64 + 2 ^ 63 : Nat) : ℚ) := by
+    exact_mod_cast e1
+  have q2 : (((belMul x y).mant * 2 ^ 64 : Nat) : ℚ) ≤ ((x.mant * y.mant + 2 ^ 63 : Nat) : ℚ) := by
+    exact_mod_cast e2
+  push_cast at q1 q2
+  have hoff : off (belMul x y) (X * Y) =
+      o * (Y1 / 2 ^ 64) + (x.mant : ℚ) * (Y1 - y.mant) / 2 ^ 64 +
+        ((x.mant : ℚ) * y.mant / 2 ^ 64 - (belMul x y).mant) := by
+    unfold off
+    rw [belMul_exp, zpow_add₀ (by norm_num), zpow_add₀ (by norm_num)]
+    have : X * Y / ((2:ℚ) ^ x.exp * (2:ℚ) ^ y.exp * (2:ℚ) ^ (64:ℤ)) =
+        (X / (2:ℚ) ^ x.exp) * Y1 / 2 ^ 64 := by
+      rw [hY1]; field_simp
+    rw [this, hXe]; ring
+  set c := Y1 / 2 ^ 64 with hc
+  have hc0 : 0 ≤ c := by rw [hc]; apply div_nonneg (by linarith) (by norm_num)
+  have hc1 : c ≤ 1 := by rw [hc, div_le_one (by norm_num)]; linarith
+  have t1 : -a ≤ o * c := by
+    have := mul_le_mul_of_nonneg_right h1 hc0
+    have := mul_le_mul_of_nonneg_left hc1 ha
+    linarith
+  have t2 : o * c ≤ b := by
+    have := mul_le_mul_of_nonneg_right h2 hc0
+    have := mul_le_mul_of_nonneg_left hc1 hb
+    linarith
+  have t3 : 0 ≤ (x.mant : ℚ) * (Y1 - y.mant) / 2 ^ 64 :=
+    div_nonneg (mul_nonneg hx0 (by linarith)) (by norm_num)
+  have t4 : (x.mant : ℚ) * (Y1 - y.mant) / 2 ^ 64 ≤ 1 := by
+    rw [div_le_one (by norm_num)]
+    have := mul_le_mul hxq.le (show Y1 - y.mant ≤ 1 by linarith) (by linarith) (by norm_num)
+    linarith
+  have t5 : (x.mant : ℚ) * y.mant / 2 ^ 64 - (belMul x y).mant ≤ 1 / 2 := by
+    rw [sub_le_iff_le_add, div_le_iff₀ (by norm_num)]; linarith
+  have t6 : -(1 / 2) ≤ (x.mant : ℚ) * y.mant / 2 ^ 64 - (belMul x y).mant := by
+    rw [le_sub_iff_add_le, le_div_iff₀ (by norm_num)]; linarith
+  rw [hoff]
+  constructor <;> linarith
+
+/-! ### `truncated_errors` -/
+
+theorem te_le (num : Number) (fp : ExtFloat) : truncatedErrors num fp ≤ tooManyErrors := by
+  unfold truncatedErrors
+  split
+  · exact Nat.min_le_right _ _
+  · exact Nat.zero_le _
+
+theorem te_not_many {num : Number} (h : num.manyDigits = false) (fp : ExtFloat) :
+    truncatedErrors num fp = 0 := by
+  unfold truncatedErrors; simp [h]
+
+theorem te_many {num : Number} (h : num.manyDigits = true) {fp : ExtFloat}
+    (hlt : fp.mant / num.mantissa * 8 < tooManyErrors) :
+    truncatedErrors num fp = fp.mant / num.mantissa * 8 := by
+  unfold truncatedErrors errorScale
+  unfold tooManyErrors at hlt
+  simp only [h, if_true]
+  unfold u64Max tooManyErrors
+  omega
+
+theorem te_sat {num : Number} (h : num.manyDigits = true) {fp : ExtFloat}
+    (hge : tooManyErrors ≤ fp.mant / num.mantissa * 8) :
+    truncatedErrors num fp = tooManyErrors := by
+  unfold truncatedErrors errorScale
+  unfold tooManyErrors at hge
+  simp only [h, if_true]
+  unfold u64Max tooManyErrors
+  omega
+
+/-- the exactly scaled significand: `fpn.mant = w · f` with `f = m · 2^clz`, and the digits dropped
+    from `x ∈ [w, w+1)` are worth `(x − w) · f` units in the last place of `fpn` -/
+theorem level0 {w m W : Nat} (hw : w ≠ 0) (hm : 1 ≤ m) (hW : W = w * m) (h64 : W < 2 ^ 64) (x : ℚ) :
+    2 ^ 63 ≤ (belNormalize ⟨W, 0⟩).1.mant ∧ (belNormalize ⟨W, 0⟩).1.mant < 2 ^ 64 ∧
+    (belNormalize ⟨W, 0⟩).1.mant / w = m * 2 ^ clz64 W ∧ 1 ≤ (belNormalize ⟨W, 0⟩).1.mant / w ∧
+    off (belNormalize ⟨W, 0⟩).1 (x * m) = (x - w) * (((belNormalize ⟨W, 0⟩).1.mant / w : Nat) : ℚ) := by
+  have hW0 : W ≠ 0 := by
+    rw [hW]; exact Nat.mul_ne_zero hw (by omega)
+  obtain ⟨_, hmant, _, hn1, hn2⟩ := belNormalize_spec (fp := ⟨W, 0⟩) hW0 h64
+  simp only at hmant
+  have hdiv : (belNormalize ⟨W, 0⟩).1.mant / w = m * 2 ^ clz64 W := by
+    rw [hmant, hW, Nat.mul_assoc, Nat.mul_div_cancel_left _ (Nat.pos_of_ne_zero hw)]
+  refine ⟨hn1, hn2, hdiv, ?_, ?_⟩
+  · rw [hdiv]; exact Nat.mul_pos (by omega) (Nat.two_pow_pos _)
+  · rw [off_normalize (fp := ⟨W, 0⟩) hW0 h64, hdiv]
+    unfold off
+    simp only [zpow_zero, div_one]
+    rw [hW]; push_cast; ring
+
+/-- **B3, first step.**  After the small-power step the significand has its top two bits in range,
+    the error budget is bounded, and — unless the budget saturated — the true scaled value lies
+    within `[-a, b]` units of the last place with `a ≤ ½` and `b + 5/2 ≤ errors2`. -/
+theorem stage1_spec {num : Number} {s : Nat} {sFp : ExtFloat} {x : ℚ}
+    (hw0 : num.mantissa ≠ 0) (hw64 : num.mantissa < 2 ^ 64)
+    (hs1 : 2 ^ 63 ≤ sFp.mant) (hs2 : sFp.mant < 2 ^ 64)
+    (hs3 : val sFp ≤ (10:ℚ) ^ s) (hs4 : (10:ℚ) ^ s < val sFp + (2:ℚ) ^ sFp.exp)
+    (hx1 : (num.mantissa : ℚ) ≤ x) (hx2 : x ≤ num.mantissa + 1)
+    (hx3 : num.manyDigits = false → x = num.mantissa) :
+    2 ^ 62 ≤ (stage1 num (10 ^ s) sFp).1.mant ∧ (stage1 num (10 ^ s) sFp).1.mant < 2 ^ 64 ∧
+    (stage1 num (10 ^ s) sFp).2 ≤ tooManyErrors + 4 ∧
+    ((num.manyDigits = true → 10 ^ 18 ≤ num.mantissa) → (stage1 num (10 ^ s) sFp).2 ≤ 148) ∧
+    ∃ a b : ℚ, 0 ≤ a ∧ a ≤ 1 / 2 ∧ 0 ≤ b ∧
+      -a ≤ off (stage1 num (10 ^ s) sFp).1 (x * (10:ℚ) ^ s) ∧
+      off (stage1 num (10 ^ s) sFp).1 (x * (10:ℚ) ^ s) ≤ b ∧
+      (tooManyErrors ≤ (stage1 num (10 ^ s) sFp).2 ∨
+        b + 5 / 2 ≤ ((bump (stage1 num (10 ^ s) sFp).2 : Nat) : ℚ)) := by
+  have h10 : 1 ≤ 10 ^ s := Nat.one_le_two_pow.trans (Nat.pow_le_pow_left (by decide) s)
+  -- generic facts about the truncation term for a scaled significand `fpn` with `fpn.mant / w = f`
+  have key : ∀ (fpn : ExtFloat) (X : ℚ), 1 ≤ fpn.mant / num.mantissa → fpn.mant < 2 ^ 64 →
+      off fpn X = (x - num.mantissa) * ((fpn.mant / num.mantissa : Nat) : ℚ) →
+      ∃ b0 : ℚ, 0 ≤ b0 ∧ 0 ≤ off fpn X ∧ off fpn X ≤ b0 ∧
+        ((num.manyDigits = true → 10 ^ 18 ≤ num.mantissa) → truncatedErrors num fpn ≤ 144) ∧
+        (tooManyErrors ≤ truncatedErrors num fpn ∨
+          (b0 + 5 / 2 ≤ ((bump (truncatedErrors num fpn) : Nat) : ℚ) ∧
+           b0 + 4 ≤ ((bump (truncatedErrors num fpn + errorHalfscale) : Nat) : ℚ))) := by
+    intro fpn X hf1 hf64 hoff
+    cases hmany : num.manyDigits with
+    | false =>
+      refine ⟨0, le_refl _, ?_, ?_, ?_, ?_⟩
+      · rw [hoff, hx3 hmany]; simp
+      · rw [hoff, hx3 hmany]; simp
+      · intro _; rw [te_not_many hmany]; omega
+      · right
+        rw [te_not_many hmany]
+        unfold bump errorHalfscale
+        norm_num
+    | true =>
+      refine ⟨((fpn.mant / num.mantissa : Nat) : ℚ), Nat.cast_nonneg _, ?_, ?_, ?_, ?_⟩
+      · rw [hoff]; exact mul_nonneg (by linarith) (Nat.cast_nonneg _)
+      · rw [hoff]
+        have : x - num.mantissa ≤ 1 := by linarith
+        have := mul_le_mul_of_nonneg_right this (Nat.cast_nonneg (fpn.mant / num.mantissa) : (0:ℚ) ≤ _)
+        linarith
+      · intro hbig
+        have hb := hbig rfl
+        have : fpn.mant / num.mantissa ≤ 18 := by
+          have h1 : fpn.mant / num.mantissa ≤ fpn.mant / 10 ^ 18 := Nat.div_le_div_left hb (by decide)
+          have h2 : fpn.mant / 10 ^ 18 ≤ 18 := by omega
+          omega
+        have hte := te_le num fpn
+        rcases Nat.lt_or_ge (fpn.mant / num.mantissa * 8) tooManyErrors with hlt | hge
+        · rw [te_many hmany hlt]; omega
+        · unfold tooManyErrors at hge; omega
+      · rcases Nat.lt_or_ge (fpn.mant / num.mantissa * 8) tooManyErrors with hlt | hge
+        · right
+          rw [te_many hmany hlt]
+          unfold bump errorHalfscale
+          have hpos : fpn.mant / num.mantissa * 8 > 0 := by omega
+          have hpos' : fpn.mant / num.mantissa * 8 + 4 > 0 := by omega
+          rw [if_pos hpos, if_pos hpos']
+          have : (1:ℚ) ≤ ((fpn.mant / num.mantissa : Nat) : ℚ) := by exact_mod_cast hf1
+          push_cast
+          constructor <;> linarith
+        · left; rw [te_sat hmany hge]
+  unfold stage1
+  by_cases hprod : num.mantissa * 10 ^ s ≥ u64Mod
+  · -- the product overflows: normalise `w`, multiply by the truncated table entry
+    simp only [hprod, if_true]
+    obtain ⟨n1, n2, _, nf, noff⟩ :=
+      level0 (w := num.mantissa) (m := 1) (W := num.mantissa) hw0 (Nat.le_refl 1) (by omega) hw64 x
+    simp only [Nat.cast_one, mul_one] at noff
+    obtain ⟨b0, hb0, o1, o2, hsmall, hbud⟩ := key _ x nf n2 noff
+    obtain ⟨m1, m2⟩ := off_mul (x := (belNormalize ⟨num.mantissa, 0⟩).1) (y := sFp) n2 hs2
+      (a := 0) (b := b0) (le_refl _) hb0 (by linarith) o2 hs3 hs4
+    have hge := belMul_ge (x := (belNormalize ⟨num.mantissa, 0⟩).1) (y := sFp) (a := 63)
+      (by decide) (by decide) n2 hs2 n1 hs1
+    have hte := te_le num (belNormalize ⟨num.mantissa, 0⟩).1
+    refine ⟨hge, belMul_lt n2 hs2, ?_, ?_, 1 / 2, b0 + 3 / 2, by norm_num, le_refl _, by linarith,
+      by linarith, m2, ?_⟩
+    · unfold errorHalfscale; omega
+    · intro h; have := hsmall h; unfold errorHalfscale; omega
+    · rcases hbud with h | h
+      · left; omega
+      · right; linarith [h.2]
+  · -- exact integer product
+    simp only [hprod, if_false]
+    have h64 : num.mantissa * 10 ^ s < 2 ^ 64 := by unfold u64Mod at hprod; omega
+    obtain ⟨n1, n2, _, nf, noff⟩ :=
+      level0 (w := num.mantissa) (m := 10 ^ s) (W := num.mantissa * 10 ^ s) hw0 h10 rfl h64 x
+    have e10 : ((10 ^ s : Nat) : ℚ) = (10:ℚ) ^ s := by push_cast; rfl
+    rw [e10] at noff
+    obtain ⟨b0, hb0, o1, o2, hsmall, hbud⟩ := key _ _ nf n2 noff
+    have hte := te_le num (belNormalize ⟨num.mantissa * 10 ^ s, 0⟩).1
+    refine ⟨by omega, n2, by omega, ?_, 0, b0, le_refl _, by norm_num, hb0, by linarith, o2, ?_⟩
+    · intro h; have := hsmall h; omega
+    · rcases hbud with h | h
+      · left; exact h
+      · right; exact h.1
+
+theorem bump_ge (e : Nat) : 4 ≤ bump e ∧ e ≤ bump e ∧ bump e ≤ e + 5 := by
+  unfold bump errorHalfscale; split <;> omega
 
 end MinLex.Bel
